@@ -51,6 +51,17 @@ class DecGrand(DecChild):
     n: int
 
 
+@p.expr_dataclass(init=False)
+class OwnInit(p.Expression):
+    """decorated with init=False: hand-written __init__ (the decorator's other option)"""
+    lo: ExpressionT
+    tag: str
+
+    def __init__(self, lo, tag="t"):
+        object.__setattr__(self, "lo", lo)
+        object.__setattr__(self, "tag", tag)
+
+
 class PlainSub(p.Variable):
     """undecorated subclass without extra fields"""
     mapper_method = "map_plain_sub"
@@ -101,7 +112,7 @@ class LegacyTwin(LegacyRoot):
     mapper_method = "map_legacy_twin"
 
 
-USER_CLASSES = [DecChild, DecGrand, PlainSub, LegacyOnDec, LegacyRoot, LegacySub, LegacyTwin]
+USER_CLASSES = [DecChild, DecGrand, OwnInit, PlainSub, LegacyOnDec, LegacyRoot, LegacySub, LegacyTwin]
 
 # }}}
 
@@ -668,6 +679,7 @@ def check_conc(item, tier):
     for a in insts[:4]:
         h0 = hash(a)
         ref = copy.deepcopy(a)
+        a_text = repr(a)
         legacy = "_is_expr_dataclass" not in cls.__dict__ and cls not in (PlainSub,)
         names = [n for n, _ in field_spec(cls)] + (
             ["brand_new_attribute"] if "_is_expr_dataclass" in cls.__dict__ else [])
@@ -680,9 +692,10 @@ def check_conc(item, tier):
                 if legacy:
                     continue    # legacy classes are plain objects; the immutability clause is about the dataclass nodes
                 if r[0] != "exc" or r[1] not in ("FrozenInstanceError", "AttributeError"):
-                    viol(f"frozen:{what}:{nm}", f"{what}attr({a!r}, {nm!r}) did not raise: {r}")
-        if not legacy and (hash(a) != h0 or not a == ref):
-            viol("frozen:changed", f"object changed after rebinding attempts: {a!r} vs {ref!r}")
+                    viol(f"frozen:{what}:{nm}", f"{what}attr({a_text}, {nm!r}) did not raise: {r}")
+                    a = copy.deepcopy(ref)      # continue with an intact object
+        if not legacy and (_safe(lambda: hash(a)) != ("val", h0) or _safe(lambda: bool(a == ref)) != ("val", True)):
+            viol("frozen:changed", f"object changed after rebinding attempts: {a_text}")
     # histories chosen by solver-enumerated selectors, coverage-checked
     L = BOUNDS[tier]["history_length"]
     eq_pair = (insts[0], insts[1])
@@ -762,7 +775,7 @@ def check_userdefs():
     """user classes: copies / pickles keep all init args; decorated classes get eq/hash of their own fields"""
     res = ItemResult(item="userdefs", sample={"family": "user class hierarchies"})
     x = p.Variable("x")
-    objs = [DecChild("n", "t"), DecGrand("n", "t", 3), PlainSub("n"), LegacyOnDec("n", "t"), LegacyRoot(x, "s"),
+    objs = [DecChild("n", "t"), DecGrand("n", "t", 3), OwnInit(x, "t"), OwnInit(x + 1), PlainSub("n"), LegacyOnDec("n", "t"), LegacyRoot(x, "s"),
             LegacySub(x, "s", x + 1), LegacyTwin(x, "s")]
     for o in objs:
         for nm, fn in (("copy", copy.copy), ("deepcopy", copy.deepcopy),
